@@ -846,7 +846,11 @@ class _Namespaces:
             ns_rules,
             key=operator.attrgetter('namespaceURI'),
         )
-        return {rule.prefix: rule.namespaceURI for rule in unique_rules}
+        # (the rules come last first: the later declaration of a prefix wins)
+        namespaces = {}
+        for rule in unique_rules:
+            namespaces.setdefault(rule.prefix, rule.namespaceURI)
+        return namespaces
 
     def get(self, prefix, default):
         return self.namespaces.get(prefix, default)
